@@ -6,7 +6,7 @@ leads read from the model-consistent continuation - Inv_Steady, Inv_LevelIsStead
 arithmetic on every behaviour). Binding: the model source emitted by the spec is parsed, solved and simulated by irispie and the whole
 path (transition and measurement variables) compared with the spec's path; reported root counts compared with the spec's roots.
 """
-import os, math
+import os, math, zlib
 import numpy as np
 import irispie as ir
 from .. import tlc, tlaval
@@ -176,11 +176,12 @@ def run(chk):
     for st in tlaval.parse_dump(dump, want=lambda b: "fin = TRUE" in b):
         sc, out, path = st["sc"], st["out"], dict(st["path"])
         check(chk, sc, out, path)
-        if chk.tier == "thorough" or n % 5 == 0:
+        h_ = zlib.crc32(repr(key(sc)).encode())          # (a sample that does not depend on the order of TLC's dump)
+        if chk.tier == "thorough" or h_ % 5 == 0:
             # the same model declared deterministic (no std parameters): simulations are unchanged
             check(chk, sc, out, path, deterministic=True)
             ndet += 1
-        if len(out["mvars"]) >= 2 and (chk.tier == "thorough" or n % 3 == 0):
+        if len(out["mvars"]) >= 2 and (chk.tier == "thorough" or h_ % 3 == 0):
             check(chk, sc, dict(out, src=out["srcb"]), path, block=True)
             nblock += 1
         if sc["id"] in ("L2", "L9"):
